@@ -499,8 +499,8 @@ impl Check for C13 {
 
     fn runs(&self, tier: Tier) -> u64 {
         match tier {
-            Tier::Quick => EXPERIMENTS_QUICK + 500_000,
-            Tier::Thorough => EXPERIMENTS_THOROUGH + 50_000_000,
+            Tier::Quick => EXPERIMENTS_QUICK + 3_000_000,
+            Tier::Thorough => EXPERIMENTS_THOROUGH + 300_000_000,
         }
     }
 
